@@ -19,7 +19,10 @@ HTAG   == [name |-> "tag",   hsize |-> 8,  sizeOff |-> 4, checked |-> TRUE]   \*
 HMB    == [name |-> "mb",    hsize |-> 16, sizeOff |-> 8, checked |-> FALSE]  \* Multiboot2BasicHeader
 HHTAG  == [name |-> "htag",  hsize |-> 8,  sizeOff |-> 4, checked |-> FALSE]  \* HeaderTagHeader
 HDUMMY == [name |-> "dummy", hsize |-> 8,  sizeOff |-> 4, checked |-> FALSE]  \* test_utils::DummyTestHeader
-Headers == {HBI, HTAG, HMB, HHTAG, HDUMMY}
+\* headers a user of the generic functions may define (the harness does): sizes that are not a multiple of 8
+H12    == [name |-> "h12",   hsize |-> 12, sizeOff |-> 4, checked |-> TRUE]   \* type, size, one more word
+H4     == [name |-> "h4",    hsize |-> 4,  sizeOff |-> 0, checked |-> TRUE]   \* the size alone
+Headers == {HBI, HTAG, HMB, HHTAG, HDUMMY, H12, H4}
 HeaderByName(n) == CHOOSE h \in Headers : h.name = n
 
 \* ---- C14: BytesRef ----------------------------------------------------------------
